@@ -46,20 +46,32 @@ theorem unpackH_slice (c : Bytes) (o : Nat) (h : o + 2 ≤ c.length) : ∃ v, un
   match hs : sliceN c o (o + 2), hl with
   | [a, b], _ => exact ⟨a * 256 + b, by simp [unpackH]⟩
 
+theorem unpackH_slice_lt (c : Bytes) (o : Nat) (h : o + 2 ≤ c.length) (hb : IsBytes c) :
+    ∃ v, unpackH (sliceN c o (o + 2)) 0 = .ok v ∧ v < 65536 := by
+  have hl : (sliceN c o (o + 2)).length = 2 := by simp [sliceN]; omega
+  have hm : ∀ x ∈ sliceN c o (o + 2), x < 256 := by
+    intro x hx
+    exact hb x (List.mem_of_mem_drop (List.mem_of_mem_take hx))
+  match hs : sliceN c o (o + 2), hl, hm with
+  | [a, b], _, hm =>
+    have ha := hm a (by simp)
+    have hb' := hm b (by simp)
+    exact ⟨a * 256 + b, by simp [unpackH], by omega⟩
+
 theorem getH_step {σ} {M : Mem σ} {J Jf : σ → Prop} {LIM : Nat} (hM : MemOK M J Jf LIM)
-    (o : Nat) (s : σ) (hJ : J s) (ha : o + 2 ≤ LIM) : Step J Jf (getH M o s) (fun _ => True) := by
+    (o : Nat) (s : σ) (hJ : J s) (ha : o + 2 ≤ LIM) : Step J Jf (getH M o s) (fun v => v < 65536) := by
   unfold getH
   split
   · rename_i h
-    obtain ⟨b, hb⟩ := unpackH_slice _ o h
-    exact Or.inl ⟨b, hb, hJ, trivial⟩
+    obtain ⟨b, hb, hlt⟩ := unpackH_slice_lt _ o h (hM.bytes s hJ)
+    exact Or.inl ⟨b, hb, hJ, hlt⟩
   · have he := hM.ens (o + 2) s hJ ha (by omega)
     rcases hr : M.ensure (o + 2) s with ⟨r, s'⟩
     cases r with
     | ok u =>
       have := he.1 u s' hr
-      obtain ⟨b, hb⟩ := unpackH_slice (M.cache s') o this.2
-      exact Or.inl ⟨b, hb, this.1, trivial⟩
+      obtain ⟨b, hb, hlt⟩ := unpackH_slice_lt (M.cache s') o this.2 (hM.bytes s' this.1)
+      exact Or.inl ⟨b, hb, this.1, hlt⟩
     | error e =>
       have := he.2 e s' hr
       exact Or.inr ⟨e, rfl, this.1, this.2⟩
